@@ -389,7 +389,7 @@ func sm2Session(c *mon.Case, s *spec, ref *sm2kx.Result, tooLong bool) {
 	}
 	c.Event("sm2_agreements", 1)
 	if c.N%4 == 0 {
-		c.Digest(fmt.Sprintf("K/%d", c.N), ref.K)
+		c.Digest(fmt.Sprintf("K/%d", c.N), keyA)
 	}
 }
 
